@@ -5,7 +5,7 @@ IS_TRACE = True
 RUN = "monitor"
 TAGS = {8, 1, 2, 13}
 RULE = ("handshakes with lost client flights (drop masks over the first datagrams, so that only server timers fire), "
-        "retry on/off, silenced clients after k datagrams, migration to a new address, garbage and truncated Initials; "
+        "retry on/off, a client port change between the Retry and the second Initial, silenced clients after k datagrams, migration to a new address, garbage and truncated Initials; "
         "non-trivial = the server transmitted at least twice while its path was unvalidated")
 
 
@@ -75,6 +75,20 @@ def gen(rng, n):
             d["MAX_TIME"] = 10_000_000
             d.pop("DROP_MASK", None)
             d.pop("MIGRATE_AT", None)
+        if rng.chance(1, 8):
+            # the client's port changes (NAT rebinding it does not notice) between the Retry and its second
+            # Initial: the token was issued to another port, the server must not treat the address as validated
+            d = S.base(rng, small=True)
+            d["RETRY"] = 1
+            d["DELAY_MIN"] = d["DELAY_MAX"] = rng.choice([5000, 10000, 30000])
+            d["MIGRATE_AT"] = d["DELAY_MIN"] + rng.range(1, 2 * d["DELAY_MIN"] - 1)
+            d["MIGRATE_KIND"] = 0
+            d["MIGRATE_SILENT"] = 1
+            d["SERVER_EARLY"] = 1
+            d["SERVER_STREAMS"] = 2
+            d["STREAM_BYTES"] = 30000
+            d["IDLE_MS"] = 3000
+            d["MAX_TIME"] = 10_000_000
         d["GSO"] = rng.choice([1, 3, 10])
         if rng.chance(1, 3):
             d["INITIAL_MTU"] = rng.choice([1200, 1400])
